@@ -8,5 +8,5 @@ echo "== demo on unchanged tree (expect exit 0)"; (cd $S && PYTHONPATH=$S timeou
 (cd $S && patch -p1 -s < $PATCH) || { echo "PATCH FAILED"; rm -rf $S; exit 1; }
 echo "== demo with change (expect exit 1)"; (cd $S && PYTHONPATH=$S timeout 300 /venv/bin/python demo.py > demo.out 2>&1; echo "exit=$?"; tail -2 demo.out)
 if [ $# -gt 0 ]; then echo "== tests with change"; (cd $S && PYTHONPATH=$S timeout 900 /venv/bin/python -m pytest -q -p no:cacheprovider "$@" 2>&1 | grep -E "passed|failed" | tail -1); fi
-echo "== my check with change"; VERIF_OUT=$S/_verif_out VERIF_REPO=$S /verif/check $P 2>&1 | grep -v WARNING | grep -E "VIOLATION|UNDECIDED|KNOWN|\[$P\]" | cut -c1-230 | head -8
+echo "== my check with change"; VERIF_OUT=$S/_verif_out VERIF_REPO=$S /verif/check $P 2>&1 | grep -v WARNING | grep -E "VIOLATION|UNDECIDED|KNOWN|\[$P\]" | cut -c1-230 | grep -v KNOWN-FINDING | head -8
 rm -rf $S
